@@ -217,6 +217,12 @@ func c17Real(c *Ctx) {
 	os.Chmod(filepath.Join(dir, "suid"), 0o755|os.ModeSetuid)
 	os.Chown(filepath.Join(dir, "reg"), 1234, 4321)
 	os.Chtimes(filepath.Join(dir, "reg"), time.Unix(1000000000, 0), time.Unix(1100000000, 0))
+	// times beyond 2038 (second counts that do not fit a signed 32-bit integer) and at the top of the wire's uint32 range
+	os.WriteFile(filepath.Join(dir, "late2040"), []byte("late"), 0o644)
+	os.Chtimes(filepath.Join(dir, "late2040"), time.Unix(2300000000, 0), time.Unix(2208988800, 0))
+	os.WriteFile(filepath.Join(dir, "late2106"), []byte("later"), 0o600)
+	os.Chtimes(filepath.Join(dir, "late2106"), time.Unix(4294967295, 0), time.Unix(4294967294, 0))
+	os.WriteFile(filepath.Join(dir, "settime"), []byte("s"), 0o644)
 	ks := []string{}
 	for k := range kinds {
 		ks = append(ks, k)
@@ -237,6 +243,22 @@ func c17Real(c *Ctx) {
 		ents, err := os.ReadDir(dir)
 		if err != nil {
 			c.Diag("readdir: %v", err)
+		}
+		// Chtimes through the client, to times before and beyond 2038: the file system must show exactly those seconds
+		for ti, tm := range [][2]int64{{1700000000, 1600000000}, {2400000000, 2500000000}, {4000000000, 2147483648}} {
+			cerr := p.Client.Chtimes(filepath.Join(base, "settime"), time.Unix(tm[0], 0), time.Unix(tm[1], 0))
+			got, _ := lsnap(filepath.Join(dir, "settime"))
+			n := c.Case("real_chtimes", kvi("t", ti), kvb("workdir", cfg.workDir != ""), kvb("alloc", cfg.alloc))
+			c.NT(n)
+			switch {
+			case cerr != nil:
+				c.Oracle(n, false, "Chtimes: "+cerr.Error())
+			case got.Mtime != tm[1] || got.Atime != tm[0]:
+				c.Oracle(n, false, fmt.Sprintf("Chtimes(atime %d, mtime %d) left atime %d, mtime %d on the file", tm[0], tm[1], got.Atime, got.Mtime))
+			default:
+				c.Oracle(n, true, "")
+			}
+			c.Stat("real_chtimes")
 		}
 		listed, lerr := p.Client.ReadDir(base)
 		byName := map[string]os.FileInfo{}
